@@ -2,12 +2,13 @@
    PathResolver.v models setPath, the twelve path slots of HistorySize and the
    InOrderPathResolver as a fold over the event log of the scan (every
    record*/RecordTreeEntry/RecordCommit/RecordName call in the code's order).
-   Proved here: with hash names every cited object is the object of a record*
-   call whose value is the reported maximum (an empty slot means the maximum is
-   0), and with --names=none nothing is cited.  For full names the cited ids
-   and the description strings of the model are compared with the
-   implementation on every run, and `git rev-parse` judges whether each
-   description resolves to the cited id (see DESIGN.md, C08). *)
+   Proved here: with hash names and with full names every cited object is the
+   object of a record* call whose value is the reported maximum (an empty slot
+   means the maximum is 0); with --names=none nothing is cited; every event the
+   scan emits is consistent with the repository; and the description built for
+   every cited path resolves to exactly the cited object under a stated model
+   of `git rev-parse` (Resolve.resolves), of which real git is the judge on
+   every run of the check (see DESIGN.md, C08). *)
 From Coq Require Import String.
 From GS Require Import GoSem Text Counts Repo Deferred Scan PathResolver PathProofs.
 Open Scope N_scope.
@@ -26,3 +27,38 @@ Theorem C08_slot_value : forall x h e,
   slot_val x (record h e) = match ev_val x e with Some (_, v) => N.max (slot_val x h) v | None => slot_val x h end.
 Proof. exact slot_val_record. Qed.
 Print Assumptions C08_slot_value.
+
+(* ---- full names ---- *)
+From GS Require Import ResolveProofs Resolve ScanEvents.
+
+Theorem C08_witness_full : forall evs,
+  slots_ok (presolve NSFull evs) /\ forall x, witness_full_ok evs (presolve NSFull evs) x.
+Proof. exact witness_full. Qed.
+Print Assumptions C08_witness_full.
+
+(* every RecordTreeEntry / RecordCommit / RecordName call of the scan is a true fact about the repository *)
+Theorem C08_events_consistent : forall r enum roots nm evs,
+  (forall t s es e, lookup r t = Some (Tree s es) -> In e es -> e_name e <> []) ->
+  scan r enum roots nm = SOk evs -> Forall (ev_ok r (names_of roots)) evs.
+Proof. exact scan_events_ok. Qed.
+Print Assumptions C08_events_consistent.
+
+(* the description of every cited path is empty (the bare id is printed) or resolves to exactly the cited object *)
+Theorem C08_descriptions_resolve : forall r enum roots evs (hexo : oid -> bytes),
+  wf_b r = true -> names_unique r -> names_ok r ->
+  no_tree_names r (names_of roots) -> commit_names_plain r (names_of roots) -> hex_plain hexo ->
+  scan r enum roots true = SOk evs ->
+  let st := presolve NSFull evs in
+  forall x i, hslot st x = SVPath i ->
+    let d := path_of hexo (fuel_of (ps_res st)) (ps_res st) i in
+    d = [] \/ resolves r hexo (names_of roots) d (pr_oid (get_path (ps_res st) i)).
+Proof. exact scan_descriptions_resolve. Qed.
+Print Assumptions C08_descriptions_resolve.
+
+Example C08_descriptions_example :
+  exists evs, scan ex_repo [5; 4; 3; 2; 1] ex_roots true = SOk evs /\
+    let st := presolve NSFull evs in
+    hslot st SMaxBlob = SVPath 0 /\
+    path_of ex_hexo (fuel_of (ps_res st)) (ps_res st) 0 = str "refs/heads/main:d/e/f" /\
+    pr_oid (get_path (ps_res st) 0) = 1.
+Proof. exact scan_descriptions_example. Qed.
